@@ -1006,10 +1006,13 @@ class MetricFrame:
                 result.append(GroupFeature(base_name, column, i, None))
         else:
             # Need to specify dtype to avoid inadvertent type conversions
-            f_arr = np.squeeze(np.asarray(features, dtype=object))
-            if f_arr.ndim == 0:
-                # a single row: keep the feature one-dimensional
-                f_arr = np.atleast_1d(f_arr)
+            f_arr = np.asarray(features, dtype=object)
+            if not (f_arr.ndim == 2 and f_arr.shape[0] == len(sample_array)):
+                # (a 2-D array with one row per sample keeps its columns, also for a single row)
+                f_arr = np.squeeze(f_arr)
+                if f_arr.ndim == 0:
+                    # a single row: keep the feature one-dimensional
+                    f_arr = np.atleast_1d(f_arr)
             if len(f_arr.shape) == 1:
                 check_consistent_length(f_arr, sample_array)
                 result.append(GroupFeature(base_name, f_arr, 0, None))
